@@ -15,16 +15,32 @@ COMMON_ASSUMPTIONS = [
 
 FEATURE_TAG = {"pb-encode-default-value": "d"}
 
+PB_RT = ["common", "ref_thrift", "ref_pb", "pb", "insts_pb"]
+GEN_PB = [("p_scalars", "p_scalars.proto", "plain")]
+PB_GEN = PB_RT + ["gen_pb", "pbgen", "insts_pbgen"]
+
 THRIFT_RT = ["common", "protos", "ref_thrift", "l0", "insts_l0", "l1", "insts_l1", "skip", "linked", "insts_linked", "l2", "insts_l2"]
 
 PB_RT = ["common", "ref_thrift", "ref_pb", "pb", "insts_pb"]
+GEN_PB = [("p_scalars", "p_scalars.proto", "plain")]
+PB_GEN = PB_RT + ["gen_pb", "pbgen", "insts_pbgen"]
 
-GEN_THRIFT = [("t_basic", "t_basic.thrift", "plain")]
+GEN_THRIFT = [("t_basic", "t_basic.thrift", "plain"), ("t_evolve_r", "t_evolve_r.thrift", "plain")]
 
 PROPS = {
+    "C10": dict(
+        modules=PB_RT + ["pbtotal", "insts_c10"],
+        hooks=True,
+        outside="inputs longer than 13 bytes; symbolic wire types (one harness per concrete wire type); whole generated messages on arbitrary bytes; the recursion limit is established as one inductive step from an arbitrary budget (hook), the 100-deep input itself is not executed; allocation sizes are bounded through the length-prefix checks only",
+    ),
     "C11": dict(
         modules=["common", "protos", "ref_thrift", "l0", "l1", "skip", "c11", "insts_c11"],
         outside="value trees beyond the 21 shapes of harness/src/skip.rs (containers <= 2 elements, binaries <= 2 bytes); generated types; payloads at or above the 4 KiB zero-copy threshold; a transport that already holds a prefix (window not at the transport's first byte) - not part of the documented contract",
+    ),
+    "C08": dict(
+        modules=["common", "protos", "ref_thrift", "gen_thrift", "c08", "insts_c08"],
+        gen=GEN_THRIFT,
+        outside="reader/writer schema pairs other than corpus/t_evolve_{w,r}.thrift; more than one unknown field per message; the compact protocol; asynchronous decoding",
     ),
     "C02": dict(
         modules=["common", "protos", "ref_thrift", "gen_thrift", "c02", "insts_c02"],
@@ -40,12 +56,16 @@ PROPS = {
         modules=["common", "protos", "ref_thrift", "l0", "l1", "skip", "insts_c07"],
         outside="containers with more than 2 elements, binaries longer than 2 bytes, adversarial input below depth 1, nesting deeper than 3 (10 for the iterative unchecked skipper); the 64/65 depth boundary itself (read from the source: skip() passes the constant 64 and each level decrements once); the async skipper is covered under C12",
     ),
+    "C18": dict(
+        modules=PB_GEN, gen=GEN_PB,
+        outside="messages other than corpus/p_scalars.proto {Small, Rep, Nested}; more than 3 records; unknown fields nested deeper than one group level; symbolic interleavings (record orders are concrete per instance); maps",
+    ),
     "C05": dict(
-        modules=PB_RT,
+        modules=PB_GEN, gen=GEN_PB,
         outside="repeated fields with more than 2 elements, strings/bytes longer than 3, maps with more than 1 entry, hash maps (ahash RandomState needs getrandom), messages beyond the corpus; tags above 2047 for the quick tier of scalar modules (all tags in thorough and for the key codec)",
     ),
     "C06": dict(
-        modules=PB_RT,
+        modules=PB_GEN, gen=GEN_PB,
         outside="as C05",
     ),
     "C01": dict(
